@@ -11,7 +11,10 @@
 //!                  4 byte positions, dropped, duplicated, swapped), sibling list padded to
 //!                  63/64/65, `proof_type`, `is_max_namespace_ignored`, leaf hash set (absence),
 //!                  parity flag, share/proof missing, share of wrong length;
-//!   * foreign    : the honest sample of (r,c) of a different square (other payload).
+//!   * foreign    : the honest sample of (r,c) of a different square (other payload);
+//!   * outside    : requests for coordinates OUTSIDE the square (in-line index w..=2w and larger
+//!                  powers of two) answered with honest samples of the line whose proof range is
+//!                  moved to the requested index (an NMT proof does not commit to the tree size).
 //!   Every candidate is presented on two paths: "direct" (the `Sample` struct, as a caller of
 //!   the public API would build it) and "wire" (protobuf bytes -> `Sample::decode(id)`).
 //! Oracle (from the statement, brute force on the square): `verify(id(r,c))` may return Ok only
@@ -281,10 +284,15 @@ fn run(world: &World, case: &Case) -> Option<Verdict> {
 fn eval(world: &World, case: &Case, rep: &mut Report) {
     let Some(v) = run(world, case) else { return };
     let fx = &world.fx;
-    let want = &fx.cells[case.req.0 as usize][case.req.1 as usize];
+    // a requested coordinate outside the square has no share at all
+    let outside = case.req.0 as usize >= fx.width || case.req.1 as usize >= fx.width;
+    let no_cell: Vec<u8> = vec![];
+    let want = if outside { &no_cell } else { &fx.cells[case.req.0 as usize][case.req.1 as usize] };
     let honest = !case.foreign && case.src == case.req && case.mutation == Mut::None;
     let family = if honest {
         "honest".to_string()
+    } else if outside {
+        "outside".to_string()
     } else if case.foreign {
         "foreign".to_string()
     } else if case.src != case.req {
@@ -323,7 +331,9 @@ fn eval(world: &World, case: &Case, rep: &mut Report) {
                 rep.case_nokey(&format!("{family}:accept-equal-share"));
             } else {
                 rep.case_nokey(&format!("{family}:ACCEPT-WRONG-SHARE"));
-                let key = if case.foreign {
+                let key = if outside {
+                    "sample-accepted-for-coordinate-outside-square"
+                } else if case.foreign {
                     "foreign-sample-accepted"
                 } else if case.src == case.req {
                     "mutated-sample-accepted"
@@ -461,6 +471,47 @@ fn explore(world: &World, full_reloc: bool, ctx: &Ctx, cap: f64) -> Report {
                 }
             }
         }
+        // requests OUTSIDE the square (enumerated once per line, at the diagonal coordinate):
+        // line = row `l` for row proofs / column `l` for column proofs; the in-line index j
+        // runs over width..=2*width and larger powers of two; candidates are the honest samples
+        // of the cells of that line, as built and with the proof range moved to j..j+1 (an NMT
+        // range proof does not commit to the tree size, so the siblings of the last leaves
+        // also fit indices beyond the end of the line)
+        if req.0 == req.1 {
+            let l = req.0;
+            let mut js: Vec<u32> = (w as u32..=2 * w as u32).collect();
+            js.extend([3 * w as u32, 4 * w as u32 - 1, 4 * w as u32, 8 * w as u32, 1 << 15, 65535]);
+            js.retain(|j| *j >= w as u32 && *j <= 65535);
+            js.sort();
+            js.dedup();
+            let srcs: Vec<u16> = if w <= 16 { (0..w as u16).collect() } else { (w as u16 - 4..w as u16).collect() };
+            for axis in 0..2u8 {
+                for &j in &js {
+                    let out = if axis == 0 { (l, j as u16) } else { (j as u16, l) };
+                    for &s in srcs.iter().rev() {
+                        let src = if axis == 0 { (l, s) } else { (s, l) };
+                        for m in [Mut::Range { start: j as i64, end: j as i64 + 1 }, Mut::None] {
+                            for p in PATHS {
+                                let mut c = base(src, axis, false, m.clone(), p);
+                                c.req = out;
+                                eval(world, &c, rep);
+                            }
+                        }
+                    }
+                }
+                // the other coordinate outside as well / instead
+                for out in [(w as u16, w as u16), (2 * w as u16, 2 * w as u16)] {
+                    let src = if axis == 0 { (l, w as u16 - 1) } else { (w as u16 - 1, l) };
+                    for m in [Mut::Range { start: out.0 as i64, end: out.0 as i64 + 1 }, Mut::None] {
+                        for p in PATHS {
+                            let mut c = base(src, axis, false, m.clone(), p);
+                            c.req = out;
+                            eval(world, &c, rep);
+                        }
+                    }
+                }
+            }
+        }
     })
 }
 
@@ -516,7 +567,7 @@ fn main() {
         &ctx,
         rep,
         Spec {
-            rule: "squares = EDS widths {2,4,8,16}x3 layouts + 32x'structured' (quick) / {2,..,64}x3 layouts (thorough), layouts structured|distinct|uniform; per square: every requested coordinate (r,c) x both proof axes x paths {direct struct, wire bytes->decode} x { honest sample; honest sample of every other position (whole square for w<=16 quick / w<=32 and 64x'structured' thorough, else same row + same column + transposed) as built and with proof_type flipped; every listed single mutation of the honest sample (6 share bytes, 11 proof ranges, per sibling 4 flips+drop+dup+swap, padding to n+1/63/64/65 siblings, proof_type flip/invalid, ignore-max flag, leaf hash, parity flag, missing share/proof, 3 share lengths); same position of a foreign square }. Cases are distinct by construction (one evaluation per tuple); non-trivial = every non-honest candidate that could be expressed on its path",
+            rule: "squares = EDS widths {2,4,8,16}x3 layouts + 32x'structured' (quick) / {2,..,64}x3 layouts (thorough), layouts structured|distinct|uniform; per square: every requested coordinate (r,c) x both proof axes x paths {direct struct, wire bytes->decode} x { honest sample; honest sample of every other position (whole square for w<=16 quick / w<=32 and 64x'structured' thorough, else same row + same column + transposed) as built and with proof_type flipped; every listed single mutation of the honest sample (6 share bytes, 11 proof ranges, per sibling 4 flips+drop+dup+swap, padding to n+1/63/64/65 siblings, proof_type flip/invalid, ignore-max flag, leaf hash, parity flag, missing share/proof, 3 share lengths); same position of a foreign square }; plus, per line (row l for row proofs, column l for column proofs), requests OUTSIDE the square: in-line index j in {w..=2w, 3w, 4w-1, 4w, 8w, 2^15, 65535} x honest samples of the cells of the line (all for w<=16, else the last 4) x {proof range moved to j..j+1, unchanged} x paths, and both coordinates outside. Cases are distinct by construction (one evaluation per tuple); non-trivial = every non-honest candidate that could be expressed on its path",
             assumptions: &[
                 "payload bytes come from VERIF_SEED (Fill); layouts, widths, coordinates and mutations are enumerated, never sampled",
                 "the square is what ExtendedDataSquare::from_ods produced from the fixture ODS; the brute-force view is copied from its flat share list and its DAH is re-derived by an independent NMT implementation at fixture build time",
@@ -527,6 +578,7 @@ fn main() {
                 "reloc:reject*",
                 "reloc+AxisFlip:reject*",
                 "foreign:reject*",
+                "outside:reject*",
                 "mut/ShareByte:reject*",
                 "mut/Range:reject*",
                 "mut/SibFlip:reject*",
